@@ -47,12 +47,31 @@ int g_token, g_path, g_ch_is_builder;
 static ParserBuilder the_builder;
 static int utap_parse();
 static int lexer_flex() { return g_lex_ret; }
+/* flex start condition (YY_START): process-global scanner state */
+extern "C" { int g_yy_start, g_yy_start_at_entry, g_scan_choice[3], g_yyerrors; }
+#define INITIAL 0
+#define comment 1
+#define BEGIN(s) (g_yy_start = (s))
+static void yyerror(const char*) { g_yyerrors++; }
+#include "lexer_state_actions.inc" /* REAL actions of the lexer.l rules that switch the start condition, and of the two <<EOF>> rules */
 
 #include "parser_globals.inc" /* REAL: static ch / syntax / syntax_token, utap_lex, rootTransId, types */
 
+/* one complete scan as flex performs it: any sequence of comment openings / closings, then the <<EOF>> rule of the start
+   condition the scanner is in (exceptions thrown in the middle of a scan are outside this model) */
+static void scan_to_eof()
+{
+    for (int i = 0; i < 3; i++) {
+        if (g_scan_choice[i] == 1 && g_yy_start == INITIAL) act_comment_open();
+        else if (g_scan_choice[i] == 2 && g_yy_start == comment) act_comment_close();
+    }
+    if (g_yy_start == comment) act_comment_eof(); else act_initial_eof();
+}
 static int utap_parse()
 {
     g_parse_calls++;
+    g_yy_start_at_entry = g_yy_start;
+    scan_to_eof();
     g_syntax = (unsigned)syntax; g_token = syntax_token; g_ch_is_builder = (ch == &the_builder);
     g_line = tracker.line; g_offset = tracker.offset; g_position = tracker.position; g_path = tracker.path;
     return g_parse_ret;
